@@ -25,6 +25,9 @@
 //	       r:<cmd>:<tag> resolver event for the operation started with tag: emit | end | err (AddSubscriptionError+end)
 //	                    | adderr (AddSubscriptionError only) | panic
 //	       sc           server cancels the connection context          it  wait for the init timeout
+//	       h            back-pressured peer: the NEXT write of the server to the socket blocks inside net.Conn.Write
+//	                    (with whatever locks its writer holds) until `u`
+//	       u            settle, then let the held write through
 //	       ?            settle, then snapshot
 //	a step ending in "~" is not followed by a settle (it races with the next step)
 //
@@ -38,6 +41,8 @@ import (
 	"errors"
 	"flag"
 	"fmt"
+	"log"
+	"net"
 	"net/http"
 	"net/http/httptest"
 	"os"
@@ -84,8 +89,12 @@ type session struct {
 	insts    map[int]*inst
 	execs    []int // tags in order of Exec invocation
 	dupExec  bool
-	ctxMiss  bool   // an operation ran under a context without the InitFunc's context value / the init payload sent
-	initKind string // payload kind of the first connection_init of the script ("" = none sent)
+	cwrite   bool // a second frame writer was caught while a write was in progress (gorilla's check)
+	hpanic   bool // any other panic in a goroutine of the connection that the harness did not ask for
+	gate     gate
+	over     chan struct{} // closed when the script is over: a resolver still waiting for an event ends
+	ctxMiss  bool          // an operation ran under a context without the InitFunc's context value / the init payload sent
+	initKind string        // payload kind of the first connection_init of the script ("" = none sent)
 	scDone   bool
 	dcancel  context.CancelFunc // cancel of the detached context handed out by the InitFunc (cfg d)
 	closes   []int              // CloseFunc codes
@@ -154,6 +163,9 @@ func (e es) again(ctx context.Context, in *inst, stubborn bool) *graphql.Respons
 				in.once.Do(func() { close(in.fin) })
 				return nil
 			}
+		case <-s.over:
+			in.once.Do(func() { close(in.fin) })
+			return nil
 		case <-done:
 			s.activity.Add(1)
 			in.once.Do(func() { close(in.fin) })
@@ -163,6 +175,84 @@ func (e es) again(ctx context.Context, in *inst, stubborn bool) *graphql.Respons
 }
 
 type initKey struct{}
+
+// gate: lets the script hold one server-side socket write (a peer that does not read).
+type gate struct {
+	mu      sync.Mutex
+	armed   bool
+	release chan struct{}
+}
+
+func (g *gate) arm() {
+	g.mu.Lock()
+	g.armed = true
+	g.mu.Unlock()
+}
+
+func (g *gate) open() {
+	g.mu.Lock()
+	g.armed = false
+	if g.release != nil {
+		close(g.release)
+		g.release = nil
+	}
+	g.mu.Unlock()
+}
+
+type gateConn struct {
+	net.Conn
+	g *gate
+}
+
+func (c gateConn) Write(b []byte) (int, error) {
+	c.g.mu.Lock()
+	var wait chan struct{}
+	if c.g.armed {
+		c.g.armed = false
+		wait = make(chan struct{})
+		c.g.release = wait
+	}
+	c.g.mu.Unlock()
+	if wait != nil {
+		<-wait
+	}
+	return c.Conn.Write(b)
+}
+
+type gateListener struct {
+	net.Listener
+	g *gate
+}
+
+func (l gateListener) Accept() (net.Conn, error) {
+	c, err := l.Listener.Accept()
+	if err != nil {
+		return c, err
+	}
+	return gateConn{c, l.g}, nil
+}
+
+// notePanic classifies a panic that surfaced in a goroutine of the connection (recovered by the transport's
+// operation epilogue or by net/http around the read loop).
+func (s *session) notePanic(msg string) {
+	s.mu.Lock()
+	if strings.Contains(msg, "concurrent write to websocket connection") {
+		s.cwrite = true
+	} else {
+		s.hpanic = true
+	}
+	s.mu.Unlock()
+	s.activity.Add(1)
+}
+
+type errLog struct{ s *session }
+
+func (e errLog) Write(p []byte) (int, error) {
+	if m := string(p); strings.Contains(m, "panic serving") {
+		e.s.notePanic(m)
+	}
+	return len(p), nil
+}
 
 // ctxCarriesInit: the context an operation runs under descends from the context the InitFunc returned and
 // carries exactly the init payload the client sent (absent / null -> none).
@@ -293,7 +383,8 @@ func transportGoroutines() int {
 
 func runScript(line string, q time.Duration) string {
 	toks := strings.Fields(line)
-	s := &session{proto: toks[0], cfg: toks[1], insts: map[int]*inst{}}
+	s := &session{proto: toks[0], cfg: toks[1], insts: map[int]*inst{}, over: make(chan struct{})}
+	defer close(s.over)
 	for _, t := range toks[2:] {
 		if p := strings.Split(strings.TrimSuffix(t, "~"), ":"); len(p) == 5 && p[0] == "m" && p[1] == "connection_init" {
 			s.initKind = p[3]
@@ -307,7 +398,12 @@ func runScript(line string, q time.Duration) string {
 	}
 	srv := handler.New(es{s})
 	srv.Use(refuser{})
-	srv.SetRecoverFunc(func(ctx context.Context, err any) error { return errors.New(fmt.Sprint(err)) })
+	srv.SetRecoverFunc(func(ctx context.Context, err any) error {
+		if m := fmt.Sprint(err); len(m) < 2 || m[0] != 'P' || strings.Trim(m[1:], "0123456789") != "" {
+			s.notePanic(m) // not one of the panics the script asked the resolver for
+		}
+		return errors.New(fmt.Sprint(err))
+	})
 	ws := transport.Websocket{
 		Upgrader: websocket.Upgrader{CheckOrigin: func(r *http.Request) bool { return true }},
 		InitFunc: func(ctx context.Context, p transport.InitPayload) (context.Context, *transport.InitPayload, error) {
@@ -354,10 +450,14 @@ func runScript(line string, q time.Duration) string {
 	srv.AddTransport(ws)
 	// the connection context is the harness's own (not net/http's), so that only the transport's
 	// own cancellation logic can cancel operations
-	hs := httptest.NewServer(http.HandlerFunc(func(w http.ResponseWriter, r *http.Request) {
+	hs := httptest.NewUnstartedServer(http.HandlerFunc(func(w http.ResponseWriter, r *http.Request) {
 		srv.ServeHTTP(w, r.WithContext(hctx))
 	}))
+	hs.Listener = gateListener{hs.Listener, &s.gate}
+	hs.Config.ErrorLog = log.New(errLog{s}, "", 0)
+	hs.Start()
 	defer hs.Close()
+	defer s.gate.open()
 	defer s.serverCancel()
 
 	sub := "graphql-ws"
@@ -439,6 +539,12 @@ func runScript(line string, q time.Duration) string {
 		if s.ctxMiss {
 			dup += " ctxmiss"
 		}
+		if s.cwrite {
+			dup += " cwrite"
+		}
+		if s.hpanic {
+			dup += " hpanic"
+		}
 		return fmt.Sprintf("S n=%d ops=%s cf=%s cc=%s%s", len(s.frames), strings.Join(ex, ","), strings.Join(cl, ","), cc, dup)
 	}
 
@@ -490,6 +596,11 @@ func runScript(line string, q time.Duration) string {
 			}
 		case "sc":
 			s.serverCancel()
+		case "h":
+			s.gate.arm()
+		case "u":
+			settle(s, q)
+			s.gate.open()
 		case "it":
 			time.Sleep(initTimeout + initTimeout/2 + 2*q)
 		case "?":
@@ -506,23 +617,27 @@ func runScript(line string, q time.Duration) string {
 		outToks = append(outToks, rec)
 	}
 	// ---- final clean-up: release every operation, drop the client, wait for the transport to wind down
+	s.gate.open()
 	settle(s, q)
 	snaps = append(snaps, snapshot())
 	gone = true
 	_ = c.UnderlyingConn().Close()
-	s.mu.Lock()
-	var live []*inst
-	for _, in := range s.insts {
-		live = append(live, in)
-	}
-	s.mu.Unlock()
-	for _, in := range live {
-		select {
-		case in.cmd <- "end":
-		case <-in.fin:
-		case <-time.After(2 * time.Second):
+	release := func() {
+		s.mu.Lock()
+		var live []*inst
+		for _, in := range s.insts {
+			live = append(live, in)
+		}
+		s.mu.Unlock()
+		for _, in := range live {
+			select {
+			case in.cmd <- "end":
+			case <-in.fin:
+			case <-time.After(2 * time.Second):
+			}
 		}
 	}
+	release()
 	deadline := time.Now().Add(3 * time.Second)
 	for {
 		s.mu.Lock()
@@ -535,6 +650,9 @@ func runScript(line string, q time.Duration) string {
 	}
 	settle(s, q)
 	<-rdone
+	// an operation whose start message the (loaded) server got to only now has not been released yet
+	release()
+	settle(s, q)
 	fin := snapshot()
 	s.mu.Lock()
 	frames := strings.Join(s.frames, " ")
@@ -552,7 +670,27 @@ func main() {
 	qms := flag.Int("q", 5, "settle quiet period in ms")
 	par := flag.Int("par", 24, "scripts run in parallel")
 	leak := flag.Bool("leakcheck", true, "count transport goroutines at the end")
+	list := flag.Bool("list", false, "print the generated scripts and exit")
+	progress := flag.String("progress", "", "file receiving 'B <i>' / 'E <i>' per script: after a crash of the process (an unrecovered panic in a transport goroutine) the scripts in flight are known")
 	flag.Parse()
+	if *list {
+		for _, l := range generate(*tier, *seed) {
+			fmt.Println(l)
+		}
+		return
+	}
+	var prog *os.File
+	var progMu sync.Mutex
+	if *progress != "" {
+		prog, _ = os.Create(*progress)
+	}
+	mark := func(k string, i int) {
+		if prog != nil {
+			progMu.Lock()
+			fmt.Fprintf(prog, "%s %d\n", k, i)
+			progMu.Unlock()
+		}
+	}
 	var scripts []string
 	if *stdin {
 		sc := bufio.NewScanner(os.Stdin)
@@ -575,7 +713,9 @@ func main() {
 		go func(i int) {
 			defer wg.Done()
 			defer func() { <-sem }()
+			mark("B", i)
 			res[i] = runScript(scripts[i], q)
+			mark("E", i)
 		}(i)
 	}
 	wg.Wait()
@@ -593,6 +733,16 @@ func main() {
 			time.Sleep(10 * time.Millisecond)
 		}
 		fmt.Fprintf(w, "LEAK\t%d\n", n)
+		if n > 0 {
+			// which goroutines: their stacks go to stderr (the check puts them into the report)
+			buf := make([]byte, 1<<22)
+			k := runtime.Stack(buf, true)
+			for _, g := range strings.Split(string(buf[:k]), "\n\n") {
+				if strings.Contains(g, "transport.(*wsConnection)") {
+					fmt.Fprintln(os.Stderr, "LEAKED "+g+"\n")
+				}
+			}
+		}
 	}
 	w.Flush()
 }
